@@ -208,6 +208,34 @@ def run(ctx):
                 ctx.violation(mode=mname, args=[a, b, c, d], values="extreme representatives", observed=str(flags), required="has_* = given members")
         ctx.case(("extreme", mname, a, b, c, d), nontrivial=(a, b, c, d) != ("A", "A", "A", "A"))
         ctx.count("extreme-outcome", "ok" if o[0] == "ok" else o[1])
+    # ... and with instances of user subclasses of the six time classes (what pandas.Timestamp, freezegun, pendulum values are): they ARE
+    # datetimes / timedeltas of their family
+    u_ = dt.timezone.utc
+    class SubDd(dt.datetime): pass
+    class SubDh(ht.datetime): pass
+    class SubDb(bt.DateTime): pass
+    class SubTd(dt.timedelta): pass
+    class SubTh(ht.timedelta): pass
+    class SubTb(bt.TimeDelta): pass
+    sd, sh, sb = SubDd(2024, 1, 1, tzinfo=u_), SubDh(2024, 1, 1, tzinfo=u_), SubDb(2024, 1, 1, tzinfo=u_)
+    V3 = dict(V)
+    V3.update({"Dd": sd, "Dh": sh, "Db": sb, "Td": SubTd(seconds=3), "Th": SubTh(seconds=3), "Tb": SubTb(3),
+               "Sm": [sd, V["Dd"] + dt.timedelta(seconds=1), SubDd(2024, 1, 2, tzinfo=u_)], "Sd": (SubDh(2024, 1, 3, tzinfo=u_), sh, sh),
+               "Sn": [SubDb(2024, 1, 2, tzinfo=u_), sb, SubDb(2024, 1, 3, tzinfo=u_)], "Sb": [sd, 5]})
+    cells3 = list(itertools.product(modes.items(), itertools.product(KINDS, repeat=4)))
+    if ctx.quick:
+        cells3 = [c_ for c_ in cells3 if allowed(c_[0][0], *c_[1])] + ctx.rng.sample(cells3, 3000)
+    for (mname, mode), (a, b, c, d) in cells3:
+        o = outcome(Timing, mode, V3[a], V3[b], V3[c], V3[d])
+        ok = allowed(mname, a, b, c, d)
+        if ok != (o[0] == "ok") or (o[0] == "err" and o[1] not in ("TypeError", "ValueError")):
+            ctx.violation(mode=mname, args=[a, b, c, d], values="instances of user subclasses of the time classes", observed=show(o)[:200], required="accepted" if ok else "ValueError/TypeError")
+        ctx.case(("subclass", mname, a, b, c, d), nontrivial=(a, b, c, d) != ("A", "A", "A", "A"))
+    for label, mk in (("create_with_irregular_interval", lambda: Timing.create_with_irregular_interval(V3["Sm"])), ("create_with_regular_interval", lambda: Timing.create_with_regular_interval(V3["Td"], sd, V3["Th"])),
+                      ("create_with_no_interval", lambda: Timing.create_with_no_interval(sb, V3["Tb"]))):
+        o = outcome(mk)
+        if o[0] != "ok":
+            ctx.violation(what="a named constructor refuses instances of subclasses of the time classes", constructor=label, observed=show(o)[:160], required="a Timing")
     res = ctx.model([q for q, _ in reqs])
     if res is not None:
         for (q, want), got in zip(reqs, res):
